@@ -62,7 +62,11 @@ def setUpOk (p : Program) : Bool := (termExcs p.setUp.term).isEmpty
 
 /-- input well-formedness assumed by the clauses: distinct stage ids; user handlers only for classes
 deriving from `Exception` (KeyboardInterrupt & co. are not claimed by configuration); the case's own skip
-reporter (which reads the reason off the exception) is only reused for skip classes -/
+reporter (which reads the reason off the exception) is only reused for skip classes; the initial
+attribute store of the scratch object is a dict (distinct attribute names); no user-supplied detail is named
+`reason` (the framework's own skip / expected-failure reason is attached by a plain `addDetail('reason')`);
+the content objects handed to `addDetail`, mismatches and fixtures are pairwise distinct objects, and so are the
+failed expectations (contents are compared by identity) -/
 def idsNodup : List Nat → Bool
   | [] => true
   | x :: xs => !xs.contains x && idsNodup xs
@@ -82,10 +86,51 @@ def dictsOf (st : Stage) : List (List (DName × UC)) :=
    | .fixtureFail ds _ _ => [ds]
    | _ => [])
 
+/-- names under which a stage attaches details by plain `addDetail` -/
+def plainNames : List Act → List DName
+  | [] => []
+  | .addDetail n _ :: as => n :: plainNames as
+  | .cleanup _ :: as => plainNames as
+  | .expect _ _ :: as => plainNames as
+  | .patch _ _ :: as => plainNames as
+  | .useFixture _ _ _ :: as => plainNames as
+
+/-- the detail names user code of a stage supplies (plain, in mismatches, in fixtures) -/
+def userNames (st : Stage) : List DName := plainNames st.acts ++ (dictsOf st).flatMap fun ds => ds.map (·.1)
+
+/-- identities of the contents user code of a stage supplies to `addDetail` / mismatches / fixtures: `(0, id)` for a
+content object, `(1, mid)` for the marker of the failed expectation `mid` -/
+def dictKeys (ds : List (DName × UC)) : List (Nat × Nat) := ds.map fun x => (0, x.2.id)
+
+def actKeys : List Act → List (Nat × Nat)
+  | [] => []
+  | .addDetail _ c :: as => (0, c.id) :: actKeys as
+  | .expect mid ds :: as => dictKeys ds ++ [(1, mid)] ++ actKeys as
+  | .useFixture _ ds _ :: as => dictKeys ds ++ actKeys as
+  | .cleanup _ :: as => actKeys as
+  | .patch _ _ :: as => actKeys as
+
+def termKeys : Term → List (Nat × Nat)
+  | .assertFail _ ds => dictKeys ds
+  | .fixtureFail ds _ _ => dictKeys ds
+  | .ret => []
+  | .raise1 _ => []
+  | .raiseMulti _ _ => []
+  | .expectFailure _ _ _ => []
+
+def stageKeys (st : Stage) : List (Nat × Nat) := actKeys st.acts ++ termKeys st.term
+
+def pairsNodup : List (Nat × Nat) → Bool
+  | [] => true
+  | x :: xs => !xs.contains x && pairsNodup xs
+
 def wf (p : Program) : Bool :=
   idsNodup ((allStages p).map Stage.id) && p.userHandlers.all (fun h => isSub h.1 .exc) &&
   p.userHandlers.all (fun h => h.2 != .std .skip || isSub h.1 .skip) &&
-  (allStages p).all (fun st => (dictsOf st).all fun ds => namesNodup (ds.map (·.1)))
+  (allStages p).all (fun st => (dictsOf st).all fun ds => namesNodup (ds.map (·.1))) &&
+  idsNodup (p.attrs0.map (·.1)) &&
+  (allStages p).all (fun st => (userNames st).all fun n => n != nmReason) &&
+  pairsNodup ((allStages p).flatMap stageKeys)
 
 /-! ### reading a trace -/
 def stageIds (t : Trace) : List Nat := t.events.filterMap fun | .stage i => some i | _ => none
